@@ -132,6 +132,9 @@ func (c *Chain) EngineStream(n int) {
 		for _, v := range vs {
 			res := RunTransition(c.Spec, pre, nil, sb, hs.Blk.Fork, true, v.mode, v.at, -1)
 			tag := "kind=engine"
+			if v.mode == "none" {
+				tag += " variant=engine_missing"
+			}
 			if v.at >= 0 {
 				tag += fmt.Sprintf(" engine_at=%d", v.at)
 			}
